@@ -135,22 +135,6 @@ Definition with_tran (st : sst) (t : option (list sevent)) : sst :=
   {| s_pos := s_pos st; s_fmt := s_fmt st; s_tables := s_tables st; s_tran := t; s_auto := s_auto st;
      s_calls := s_calls st; s_out := s_out st |}.
 
-(* the commit closure: the position advances only once the handler has accepted the
-   transaction; a failed call is still recorded in s_out *)
-Definition commit' (st : sst) (ev : bytes) : res (sst * option cause) :=
-  do nx <- ev_next_position ev;
-  do ts <- ev_timestamp ev;
-  let now := s_pos st in
-  let next := {| p_file := p_file now; p_off := nx |} in
-  let t := {| t_now := now; t_next := next; t_ts := ts; t_events := tran_list (s_tran st) |} in
-  let ok := verdict (s_calls st) in
-  if ok then
-    Ok ({| s_pos := next; s_fmt := s_fmt st; s_tables := s_tables st; s_tran := None; s_auto := true;
-           s_calls := S (s_calls st); s_out := (t, true) :: s_out st |}, None)
-  else
-    Ok ({| s_pos := s_pos st; s_fmt := s_fmt st; s_tables := s_tables st; s_tran := s_tran st; s_auto := s_auto st;
-           s_calls := S (s_calls st); s_out := (t, false) :: s_out st |}, Some CHandler).
-
 Variable mp : mapper.
 
 Definition in_stmt_case (i : nat) (c : Z) : bool := existsb (Z.eqb c) (nth i parseEvents_stmt_cases []).
@@ -161,118 +145,167 @@ Definition rows_kind (typ : Z) : option Z :=
   else if (typ =? K_eDeleteRowsEventV1) || (typ =? K_eDeleteRowsEventV2) then Some K_StatementDelete
   else None.
 
-(* one iteration of the loop body; (state, None) = continue, (state, Some c) = return with an error *)
-Definition step (st : sst) (ev0 : bytes) : res (sst * option cause) :=
-  do valid <- is_valid ev0;
-  if negb valid then Ok (st, Some CInvalid)
+(* What one received event means for the loop: the decoding half of the loop body.  It reads the
+   format and the table cache, never the transaction state. *)
+Inductive aevent :=
+| AStop (c : cause)                    (* return with an error *)
+| APanic
+| AFormat (f : format)                 (* FORMAT_DESCRIPTION_EVENT *)
+| ANop                                 (* nothing happens: pre-format rotate, GTID, unknown types and statements *)
+| ABegin
+| AStmt (e : sevent) (nx ts : Z)       (* statement or row change: buffered; commits at once when autocommit *)
+| ACommit (nx ts : Z)                  (* XID or COMMIT *)
+| ARollback (nx ts : Z)
+| ARotate (name : bytes) (off : Z)
+| ATable (id : Z) (tm : table_map) (ti : tinfo).   (* table cache entry (re)placed *)
+
+Definition lift {A} (r : res A) (k : A -> aevent) : aevent :=
+  match r with Ok a => k a | Err _ => APanic | Panic => APanic end.
+
+Definition decode (f : format) (tables : list (Z * (table_map * tinfo))) (ev0 : bytes) : aevent :=
+  lift (is_valid ev0) (fun valid =>
+  if negb valid then AStop CInvalid
   else
-  do typ0 <- ev_type ev0;
+  lift (ev_type ev0) (fun typ0 =>
   if typ0 =? K_eFormatDescriptionEvent then
     match ev_format ev0 with
-    | Ok f => Ok ({| s_pos := s_pos st; s_fmt := f; s_tables := s_tables st; s_tran := s_tran st; s_auto := s_auto st;
-                    s_calls := s_calls st; s_out := s_out st |}, None)
-    | Err _ => Ok (st, Some CFormat)
-    | Panic => Panic
+    | Ok f' => AFormat f'
+    | Err _ => AStop CFormat
+    | Panic => APanic
     end
-  else if format_is_zero (s_fmt st) then
-    if typ0 =? K_eRotateEvent then Ok (st, None) else Ok (st, Some CNoFormat)
+  else if format_is_zero f then
+    if typ0 =? K_eRotateEvent then ANop else AStop CNoFormat
   else
-  match strip_checksum56 (s_fmt st) ev0 with
-  | Err _ => Ok (st, Some CChecksum)
-  | Panic => Panic
+  match strip_checksum56 f ev0 with
+  | Err _ => AStop CChecksum
+  | Panic => APanic
   | Ok ev =>
-    let f := s_fmt st in
-    do typ <- ev_type ev;
-    if typ =? K_eXIDEvent then commit' st ev
+    lift (ev_type ev) (fun typ =>
+    if typ =? K_eXIDEvent then
+      lift (ev_next_position ev) (fun nx => lift (ev_timestamp ev) (fun ts => ACommit nx ts))
     else if typ =? K_eRotateEvent then
       match ev_rotate f ev with
-      | Ok (name, off) =>
-        Ok ({| s_pos := {| p_file := name; p_off := off |}; s_fmt := f; s_tables := s_tables st; s_tran := s_tran st;
-               s_auto := s_auto st; s_calls := s_calls st; s_out := s_out st |}, None)
-      | Err _ => Ok (st, Some CRotate)
-      | Panic => Panic
+      | Ok (name, off) => ARotate name off
+      | Err _ => AStop CRotate
+      | Panic => APanic
       end
     else if typ =? K_eQueryEvent then
       match ev_query f ev with
-      | Err _ => Ok (st, Some CQuery)
-      | Panic => Panic
+      | Err _ => AStop CQuery
+      | Panic => APanic
       | Ok q =>
         let cat := category (q_sql q) in
-        do ts <- ev_timestamp ev;
+        lift (ev_timestamp ev) (fun ts =>
         let sev := {| se_type := cat; se_table := ([], []); se_query := q; se_ts := ts; se_values := []; se_ids := [] |} in
-        if in_stmt_case 0 cat then           (* BEGIN *)
-          Ok ({| s_pos := s_pos st; s_fmt := f; s_tables := s_tables st; s_tran := Some []; s_auto := false;
-                 s_calls := s_calls st; s_out := s_out st |}, None)
-        else if in_stmt_case 1 cat || in_stmt_case 2 cat then   (* DDL / SET, DML: buffer; commit when autocommit *)
-          let st1 := with_tran st (append_tran (s_tran st) sev) in
-          if s_auto st then commit' st1 ev else Ok (st1, None)
-        else if in_stmt_case 3 cat then      (* ROLLBACK: drop, then commit *)
-          commit' (with_tran st None) ev
-        else if in_stmt_case 4 cat then      (* COMMIT *)
-          commit' st ev
-        else Ok (st, None)
+        if in_stmt_case 0 cat then ABegin
+        else if in_stmt_case 1 cat || in_stmt_case 2 cat then
+          lift (ev_next_position ev) (fun nx => AStmt sev nx ts)
+        else if in_stmt_case 3 cat then lift (ev_next_position ev) (fun nx => ARollback nx ts)
+        else if in_stmt_case 4 cat then lift (ev_next_position ev) (fun nx => ACommit nx ts)
+        else ANop)
       end
     else if typ =? K_eTableMapEvent then
-      do id <- ev_table_id f ev;
+      lift (ev_table_id f ev) (fun id =>
       match ev_table_map f ev with
-      | Err _ => Ok (st, Some CTableMap)
-      | Panic => Panic
+      | Err _ => AStop CTableMap
+      | Panic => APanic
       | Ok tm =>
-        let requery :=
-          match lookup_table id (s_tables st) with
+        let keep :=
+          match lookup_table id tables with
           | Some (old, ti) =>
             (* a re-announcement for the same table keeps the mapper entry *)
             if bytes_eqb (tm_db old) (tm_db tm) && bytes_eqb (tm_name old) (tm_name tm) then Some ti else None
           | None => None
           end in
-        match requery with
-        | Some ti =>
-          Ok ({| s_pos := s_pos st; s_fmt := f; s_tables := update_table id (tm, ti) (s_tables st); s_tran := s_tran st;
-                 s_auto := s_auto st; s_calls := s_calls st; s_out := s_out st |}, None)
+        match keep with
+        | Some ti => ATable id tm ti
         | None =>
           match mp (tm_db tm) (tm_name tm) with
-          | None => Ok (st, Some CMapper)
+          | None => AStop CMapper
           | Some ti =>
-            if negb (Nat.eqb (length (ti_cols ti)) (bm_count (tm_can_be_null tm))) then Ok (st, Some CMismatch)
-            else
-              Ok ({| s_pos := s_pos st; s_fmt := f; s_tables := update_table id (tm, ti) (s_tables st); s_tran := s_tran st;
-                     s_auto := s_auto st; s_calls := s_calls st; s_out := s_out st |}, None)
+            if negb (Nat.eqb (length (ti_cols ti)) (bm_count (tm_can_be_null tm))) then AStop CMismatch
+            else ATable id tm ti
           end
         end
-      end
+      end)
     else
     match rows_kind typ with
     | Some kind =>
-      do id <- ev_table_id f ev;
-      match lookup_table id (s_tables st) with
-      | None => Ok (st, Some CUnknownTable)
+      lift (ev_table_id f ev) (fun id =>
+      match lookup_table id tables with
+      | None => AStop CUnknownTable
       | Some (tm, ti) =>
         match ev_rows f tm ev with
-        | Err _ => Ok (st, Some CRows)
-        | Panic => Panic
+        | Err _ => AStop CRows
+        | Panic => APanic
         | Ok rs =>
-          do ts <- ev_timestamp ev;
+          lift (ev_timestamp ev) (fun ts =>
           let want_ids := negb (kind =? K_StatementInsert) in
           let want_vals := negb (kind =? K_StatementDelete) in
-          do oi <- rows_images tm ti rs want_ids want_vals (rs_rows rs) [] [];
+          lift (rows_images tm ti rs want_ids want_vals (rs_rows rs) [] []) (fun oi =>
           match oi with
-          | None => Ok (st, Some CCell)
+          | None => AStop CCell
           | Some (ids, vals) =>
             let sev := {| se_type := kind; se_table := ti_name ti; se_query := zero_query; se_ts := ts;
                           se_values := vals; se_ids := ids |} in
-            let st1 := with_tran st (append_tran (s_tran st) sev) in
-            if s_auto st then commit' st1 ev else Ok (st1, None)
-          end
+            lift (ev_next_position ev) (fun nx => AStmt sev nx ts)
+          end))
         end
-      end
+      end)
     | None =>
-      if typ =? K_ePreviousGTIDsEvent then Ok (st, None)
-      else if typ =? K_eGTIDEvent then Ok (st, None)
-      else if typ =? K_eRandEvent then Ok (st, Some CRand)
-      else if typ =? K_eIntVarEvent then Ok (st, Some CIntVar)
-      else if typ =? K_eRowsQueryEvent then Ok (st, Some CRowsQuery)
-      else Ok (st, None)
-    end
+      if typ =? K_ePreviousGTIDsEvent then ANop
+      else if typ =? K_eGTIDEvent then ANop
+      else if typ =? K_eRandEvent then AStop CRand
+      else if typ =? K_eIntVarEvent then AStop CIntVar
+      else if typ =? K_eRowsQueryEvent then AStop CRowsQuery
+      else ANop
+    end)
+  end)).
+
+(* the commit closure: the position advances only once the handler has accepted the
+   transaction; a failed call is still recorded in s_out *)
+Definition commit_at (st : sst) (nx ts : Z) : sst * option cause :=
+  let now := s_pos st in
+  let next := {| p_file := p_file now; p_off := nx |} in
+  let t := {| t_now := now; t_next := next; t_ts := ts; t_events := tran_list (s_tran st) |} in
+  let ok := verdict (s_calls st) in
+  if ok then
+    ({| s_pos := next; s_fmt := s_fmt st; s_tables := s_tables st; s_tran := None; s_auto := true;
+        s_calls := S (s_calls st); s_out := (t, true) :: s_out st |}, None)
+  else
+    ({| s_pos := s_pos st; s_fmt := s_fmt st; s_tables := s_tables st; s_tran := s_tran st; s_auto := s_auto st;
+        s_calls := S (s_calls st); s_out := (t, false) :: s_out st |}, Some CHandler).
+
+(* the state-machine half of the loop body *)
+Definition astep (st : sst) (a : aevent) : sst * option cause :=
+  match a with
+  | AStop c => (st, Some c)
+  | APanic => (st, None)                (* never reached: step maps APanic to Panic *)
+  | AFormat f =>
+    ({| s_pos := s_pos st; s_fmt := f; s_tables := s_tables st; s_tran := s_tran st; s_auto := s_auto st;
+        s_calls := s_calls st; s_out := s_out st |}, None)
+  | ANop => (st, None)
+  | ABegin =>
+    ({| s_pos := s_pos st; s_fmt := s_fmt st; s_tables := s_tables st; s_tran := Some []; s_auto := false;
+        s_calls := s_calls st; s_out := s_out st |}, None)
+  | AStmt e nx ts =>
+    let st1 := with_tran st (append_tran (s_tran st) e) in
+    if s_auto st then commit_at st1 nx ts else (st1, None)
+  | ACommit nx ts => commit_at st nx ts
+  | ARollback nx ts => commit_at (with_tran st None) nx ts
+  | ARotate name off =>
+    ({| s_pos := {| p_file := name; p_off := off |}; s_fmt := s_fmt st; s_tables := s_tables st; s_tran := s_tran st;
+        s_auto := s_auto st; s_calls := s_calls st; s_out := s_out st |}, None)
+  | ATable id tm ti =>
+    ({| s_pos := s_pos st; s_fmt := s_fmt st; s_tables := update_table id (tm, ti) (s_tables st); s_tran := s_tran st;
+        s_auto := s_auto st; s_calls := s_calls st; s_out := s_out st |}, None)
+  end.
+
+(* one iteration of the loop body; (state, None) = continue, (state, Some c) = return with an error *)
+Definition step (st : sst) (ev0 : bytes) : res (sst * option cause) :=
+  match decode (s_fmt st) (s_tables st) ev0 with
+  | APanic => Panic
+  | a => Ok (astep st a)
   end.
 
 Fixpoint run_from (st : sst) (evs : list bytes) : sst * outcome :=
